@@ -44,7 +44,13 @@ def random_strings(min_size: int = 0, max_size: int = 10) -> Iterator:
         yield "".join(choices(population, k=length))
 
 
-def random_floats(lower: float = -1e-6, upper: float = 1e6) -> Iterator:
+def random_floats(lower: float | None = None, upper: float | None = None) -> Iterator:
+    # a bound that is not given is placed well beyond the given one (the fixed defaults -1e-6 and 1e6 could lie on
+    # the wrong side of it)
+    if lower is None:
+        lower = -1e6 if upper is None else max(-sys.float_info.max, min(-1e6, upper - max(1e6, abs(upper))))
+    if upper is None:
+        upper = min(sys.float_info.max, max(1e6, lower + max(1e6, abs(lower))))
     yield lower
     yield upper
     # TODO: maybe first generate_true some smaller float
